@@ -284,9 +284,9 @@ func c07R2(r *Report) {
 			}
 			n++
 			a := ci.Common().Args // t, proxy, conn, addr, incoming, result, init
-			r.Check(a[2] == extractOf(hc, 0), "R2", "tor."+sp[0]+"/NewPeer(conn)", ci.Pos(), "the peer is created on the connection the handshake returned (wrapped when encrypted)",
+			r.Check(isOrCellOf(a[2], extractOf(hc, 0)), "R2", "tor."+sp[0]+"/NewPeer(conn)", ci.Pos(), "the peer is created on the connection the handshake returned (wrapped when encrypted)",
 				"NewPeer is not given the connection returned by the handshake: an encrypted session would continue on the raw connection")
-			r.Check(a[6] == extractOf(hc, 2), "R2", "tor."+sp[0]+"/NewPeer(init)", ci.Pos(), "the handshake's surplus bytes are handed to the peer", "NewPeer is not given the surplus bytes (init) returned by the handshake: bytes glued to the handshake are lost")
+			r.Check(isOrCellOf(a[6], extractOf(hc, 2)), "R2", "tor."+sp[0]+"/NewPeer(init)", ci.Pos(), "the handshake's surplus bytes are handed to the peer", "NewPeer is not given the surplus bytes (init) returned by the handshake: bytes glued to the handshake are lost")
 		}
 	}
 	// link 2: NewPeer -> peer.New(conn) and TorAddPeer{p, init}
@@ -923,4 +923,35 @@ func c07R6(r *Report) {
 		})
 	}
 	r.Sentinel("R1.sync-writes", nW, 1)
+}
+
+// isOrCellOf: v is the value want, or a load of a variable's cell (a variable captured by a closure lives in one) whose
+// last store before the load is want.
+func isOrCellOf(v, want ssa.Value) bool {
+	if v == want {
+		return true
+	}
+	ld, ok := v.(*ssa.UnOp)
+	if !ok || ld.Op != token.MUL || want == nil {
+		return false
+	}
+	cell, ok := ld.X.(*ssa.Alloc)
+	if !ok {
+		return false
+	}
+	var st0 *ssa.Store
+	for _, ref := range *cell.Referrers() {
+		if st, isSt := ref.(*ssa.Store); isSt && st.Addr == ssa.Value(cell) && st.Val == want {
+			st0 = st
+		}
+	}
+	if st0 == nil || !instrReaches(st0, ld) {
+		return false
+	}
+	for _, ref := range *cell.Referrers() {
+		if st, isSt := ref.(*ssa.Store); isSt && st != st0 && st.Addr == ssa.Value(cell) && st.Parent() == ld.Parent() && instrReaches(st0, st) && instrReaches(st, ld) {
+			return false
+		}
+	}
+	return true
 }
